@@ -308,6 +308,18 @@ func c17(args []string) int {
 		}
 		specs = append(specs, sp)
 	}
+	// budget witnesses: an upstream that never accepts a connection / always answers 503 / always times out per try, for several
+	// num_retries: exactly 1 + max(3, num_retries) attempts are expected (num_retries >= 9 would run into the listed C03 loop finding)
+	for _, nr := range []int{0, 1, 3, 4, 6} {
+		fail := strings.Split(strings.Repeat("connfail,", 11)+"connfail", ",")
+		specs = append(specs, &Spec{Route: "forward", NHosts: 2, RouteGlobalMs: 400, NumRetries: nr, Pool: fail})
+		sp := &Spec{Route: "forward", NHosts: 2, RouteGlobalMs: 600, RetryOn: true, NumRetries: nr}
+		for k := 0; k < 10; k++ {
+			sp.Events = append(sp.Events, Event{AtMs: 20 + 30*k, Kind: "upresp", K: k, Status: 503})
+		}
+		specs = append(specs, sp)
+		specs = append(specs, &Spec{Route: "forward", NHosts: 2, RouteGlobalMs: 900, RouteTryMs: 40, RetryOn: true, NumRetries: nr})
+	}
 	jobs := make([]*histJob, len(specs))
 	for i, sp := range specs {
 		jobs[i] = &histJob{id: 500000 + i + 1, spec: sp}
